@@ -296,6 +296,10 @@ type ReplayFile struct {
 	Tier      string          `json:"tier"`
 	Seed      uint64          `json:"seed"`
 	Case      json.RawMessage `json:"case"`
+	// Reproduce: the run that produced the file (a pure function of seed, tier and shard). Checks keep long-lived
+	// library objects across cases; a failure caused by state left behind by earlier cases reproduces with this
+	// command even where re-evaluating the stored case alone does not.
+	Reproduce string `json:"reproduce,omitempty"`
 }
 
 // IsKnown reports whether (kind, signature) is listed as an open known finding.
@@ -329,7 +333,9 @@ func Fail(t TB, check, kind, signature string, c interface{}, format string, arg
 	dir := replayDir()
 	_ = os.MkdirAll(dir, 0o755)
 	path := filepath.Join(dir, name)
-	rf := ReplayFile{Property: property, Check: check, Kind: kind, Signature: signature, Message: msg, Tier: Tier(), Seed: Seed(), Case: raw}
+	_, nsh := Shard()
+	rf := ReplayFile{Property: property, Check: check, Kind: kind, Signature: signature, Message: msg, Tier: Tier(), Seed: Seed(), Case: raw,
+		Reproduce: fmt.Sprintf("VERIF_SEED=%d bin/check %s --tier %s --shards %d   # shard %d reported it", Seed(), property, Tier(), nsh, sh)}
 	b, _ := json.MarshalIndent(rf, "", " ")
 	_ = os.WriteFile(path, b, 0o644)
 	mu.Lock()
